@@ -245,7 +245,7 @@ PROPS = {
     "C15": dict(
         modules=["Drpc.Props.C15", "Drpc.Tie.C15"],
         suites=["pool"],
-        rule="pool suite, the real drpcpool.Pool with fake connections inside a testing/synctest bubble (fake clock; a fake "
+        rule="(incl. timers firing INSIDE Put/Take/Close while the call holds the pool lock: tokens op@n/e, replayed by the driver's midStep) pool suite, the real drpcpool.Pool with fake connections inside a testing/synctest bubble (fake clock; a fake "
              "connection's Close parks twice when called from an expiry callback, so 'timer fired', 'callback closed the "
              "connection' and 'callback ran removeEntry' are three separately scheduled events): a corpus of the scenarios of "
              "the three repaired defects and their neighbours; ALL sequences of length <= 4 (5 in thorough) over a 10-symbol "
